@@ -12,6 +12,12 @@
 // Answer of a state-changing op:
 //   st <n> <median> <scheme> <prec> ; dom <lo> <hi> <inclLo> <inclHi> ; c <keys> ; p <probs> ;
 //   b <bounds_> ; o (<slot> <P|Q|E> <x> <r>)*  [ / <state of component 1> / ... ]
+//   every object dump ends with the group  q (<hexname> <value> <tag> <lo> <hi> <inclLo> <inclHi>)*  : its
+//   parameters in ParameterList order with their constraint *now*; tag n = none, o = the pointer is this
+//   object's own intMinMax_, c = (compound's copy) the pointer is the intMinMax_ of the component the copy
+//   mirrors, i = any other interval constraint, x = not an interval.
+//   When a second object exists (register `alt`: ops fork / forkassign / swap) every answer ends with
+//   // <dump of alt and of its components>.
 // or exc:<kind> followed by the same dump (the state after the rejected op).
 #include "common.h"
 #include <Bpp/Numeric/Prob/GammaDiscreteDistribution.h>
@@ -56,12 +62,46 @@ struct Peekable {
   virtual ~Peekable() {}
   virtual std::string dumpState() const = 0;
   virtual void redo() const = 0;   // re-run discretize() on a copy, recording the oracle
+  virtual const IntervalConstraint* domPtr() const = 0;   // address of intMinMax_
 };
+
+// the components of a compound, in order
+static std::vector<const DiscreteDistributionInterface*> componentsOf(const DiscreteDistributionInterface& d) {
+  std::vector<const DiscreteDistributionInterface*> v;
+  if (auto* im = dynamic_cast<const InvariantMixedDiscreteDistribution*>(&d)) v.push_back(&im->variableSubDistribution());
+  if (auto* mx = dynamic_cast<const MixtureOfDiscreteDistributions*>(&d))
+    for (size_t i = 0; i < mx->getNumberOfDistributions(); ++i) v.push_back(&mx->nDistribution(i));
+  return v;
+}
+
+// group q: the parameters of an object with their constraints as they are now
+static std::string paramStr(const DiscreteDistributionInterface& d, const IntervalConstraint* own) {
+  std::string s = " ; q";
+  std::vector<const IntervalConstraint*> compDoms;
+  for (auto* c : componentsOf(d)) { auto* pk = dynamic_cast<const Peekable*>(c); compDoms.push_back(pk ? pk->domPtr() : nullptr); }
+  const ParameterList& pl = d.getParameters();
+  for (size_t i = 0; i < pl.size(); ++i) {
+    const Parameter& p = pl[i];
+    s += " " + strToHex(d.getParameterNameWithoutNamespace(p.getName())) + " " + H(p.getValue());
+    std::shared_ptr<const ConstraintInterface> c = p.getConstraint();
+    const IntervalConstraint* ic = dynamic_cast<const IntervalConstraint*>(c.get());
+    if (!c) s += " n - - - -";
+    else if (!ic) s += " x - - - -";
+    else {
+      std::string tag = "i";
+      if (ic == own) tag = "o";
+      for (auto* cd : compDoms) if (cd && ic == cd) tag = "c";
+      s += " " + tag + " " + H(ic->getLowerBound()) + " " + H(ic->getUpperBound()) + " " + (ic->strictLowerBound() ? "0" : "1") + " " + (ic->strictUpperBound() ? "0" : "1");
+    }
+  }
+  return s;
+}
 
 template<class B> struct Rec : public B, public Peekable {
   int slot_;
   template<class... A> Rec(int slot, A&&... a) : B(std::forward<A>(a)...), slot_(slot) {}
   Rec(const Rec& r) : B(r), slot_(r.slot_) {}
+  Rec& operator=(const Rec& r) { B::operator=(r); slot_ = r.slot_; return *this; }
   Rec* clone() const override { return new Rec(*this); }
   double pProb(double x) const override { double r = B::pProb(x); if (g_rec) g_log.push_back({slot_, 'P', x, r}); return r; }
   double qProb(double x) const override { double r = B::qProb(x); if (g_rec) g_log.push_back({slot_, 'Q', x, r}); return r; }
@@ -74,12 +114,14 @@ template<class B> struct Rec : public B, public Peekable {
     s += " ; c"; for (auto& kv : this->distribution_) s += " " + H(kv.first);
     s += " ; p"; for (auto& kv : this->distribution_) s += " " + H(kv.second);
     s += " ; b"; for (double b : this->bounds_) s += " " + H(b);
+    s += paramStr(*this, this->intMinMax_.get());
     return s;
   }
   void redo() const override { Rec c(*this); c.discretize(); }
+  const IntervalConstraint* domPtr() const override { return this->intMinMax_.get(); }
 };
 
-static std::unique_ptr<DiscreteDistributionInterface> g_cur;
+static std::unique_ptr<DiscreteDistributionInterface> g_cur, g_alt;
 static std::vector<std::unique_ptr<DiscreteDistributionInterface>> g_stack;
 
 static std::string logStr() {
@@ -96,6 +138,25 @@ static std::string dumpOf(const DiscreteDistributionInterface& d) {
 // exploration data (not recorded as oracle): pProb and Expectation of a continuous family at
 // lower :: bounds_ ++ [upper]
 static bool g_continuous = false;
+static bool isContinuous(const DiscreteDistributionInterface* d) {
+  return d && (dynamic_cast<const GammaDiscreteDistribution*>(d) || dynamic_cast<const BetaDiscreteDistribution*>(d) || dynamic_cast<const GaussianDiscreteDistribution*>(d)
+    || dynamic_cast<const ExponentialDiscreteDistribution*>(d) || dynamic_cast<const TruncatedExponentialDiscreteDistribution*>(d) || dynamic_cast<const UniformDiscreteDistribution*>(d));
+}
+// group xq: for every quantile the discretisation asked for (recorded `Q x -> q`), pProb(q): exploration of
+// "pProb and qProb are mutually inverse"
+static std::string inverseStr() {
+  std::string s = " ; xq";
+  if (g_continuous && g_cur) {
+    bool r = g_rec; g_rec = false;
+    std::vector<LogEntry> log = g_log;
+    // only at quantiles strictly inside the domain (pGamma(+inf) does not return: RandomTools, property C08)
+    double lo = g_cur->getLowerBound(), hi = g_cur->getUpperBound();
+    try { for (auto& e : log) if (e.fn == 'Q') s += " " + H(e.x) + " " + H(e.r) + " " + ((e.r > lo && e.r < hi) ? H(g_cur->pProb(e.r)) : std::string("nan")); }
+    catch (...) { s = " ; xq"; }
+    g_rec = r;
+  }
+  return s;
+}
 static std::string exploreStr() {
   std::string sp = " ; xp", se = " ; xe";
   if (g_continuous && g_cur) {
@@ -112,14 +173,70 @@ static std::string exploreStr() {
   return sp + se;
 }
 
-static std::string dump() {
-  if (!g_cur) return "none";
-  std::string s = dumpOf(*g_cur) + logStr() + exploreStr();
-  if (auto* im = dynamic_cast<const InvariantMixedDiscreteDistribution*>(g_cur.get()))
-    s += " / " + dumpOf(im->variableSubDistribution());
-  if (auto* mx = dynamic_cast<const MixtureOfDiscreteDistributions*>(g_cur.get()))
-    for (size_t i = 0; i < mx->getNumberOfDistributions(); ++i) s += " / " + dumpOf(mx->nDistribution(i));
+static std::string altStr() {
+  if (!g_alt) return "";
+  std::string s = " // " + dumpOf(*g_alt);
+  for (auto* c : componentsOf(*g_alt)) s += " / " + dumpOf(*c);
   return s;
+}
+static std::string dump() {
+  if (!g_cur) return "none" + altStr();
+  std::string s = dumpOf(*g_cur) + logStr() + exploreStr() + inverseStr();
+  for (auto* c : componentsOf(*g_cur)) s += " / " + dumpOf(*c);
+  return s + altStr();
+}
+
+// a fresh object of the dynamic class of `src`, built from other arguments, then assigned from it
+template<class T, class... A> static bool assignAs(const DiscreteDistributionInterface& src, std::unique_ptr<DiscreteDistributionInterface>& out, A&&... a) {
+  auto* p = dynamic_cast<const Rec<T>*>(&src);
+  if (!p) return false;
+  Rec<T>* q = new Rec<T>(-1, std::forward<A>(a)...);
+  out.reset(q);
+  *q = *p;
+  return true;
+}
+// `*cur = *cur` through the assignment operator of its dynamic class
+template<class T> static bool selfAssignAs(DiscreteDistributionInterface& d) {
+  auto* p = dynamic_cast<Rec<T>*>(&d);
+  if (!p) return false;
+  Rec<T>& r = *p;
+  *p = r;
+  return true;
+}
+static void selfAssign() {
+  if (!g_cur) throw Exception("no current");
+  DiscreteDistributionInterface& c = *g_cur;
+  bool ok = selfAssignAs<GammaDiscreteDistribution>(c) || selfAssignAs<BetaDiscreteDistribution>(c) || selfAssignAs<GaussianDiscreteDistribution>(c)
+    || selfAssignAs<ExponentialDiscreteDistribution>(c) || selfAssignAs<TruncatedExponentialDiscreteDistribution>(c) || selfAssignAs<UniformDiscreteDistribution>(c)
+    || selfAssignAs<ConstantDistribution>(c) || selfAssignAs<SimpleDiscreteDistribution>(c) || selfAssignAs<InvariantMixedDiscreteDistribution>(c)
+    || selfAssignAs<MixtureOfDiscreteDistributions>(c);
+  if (!ok) throw Exception("class");
+}
+static void forkAssign() {
+  if (!g_cur) throw Exception("no current");
+  const DiscreteDistributionInterface& c = *g_cur;
+  std::unique_ptr<DiscreteDistributionInterface> out;
+  std::vector<double> v{0., 1.}, pr{0.5, 0.5};
+  bool ok = assignAs<GammaDiscreteDistribution>(c, out, 2, 1., 1., 0.05, 0.05, false, 0.)
+    || assignAs<BetaDiscreteDistribution>(c, out, 2, 2., 2., static_cast<short>(1))
+    || assignAs<GaussianDiscreteDistribution>(c, out, 2, 0., 1.)
+    || assignAs<ExponentialDiscreteDistribution>(c, out, 2, 1.)
+    || assignAs<TruncatedExponentialDiscreteDistribution>(c, out, 2, 1., 10.)
+    || assignAs<UniformDiscreteDistribution>(c, out, 2u, 0., 1.)
+    || assignAs<ConstantDistribution>(c, out, 0.)
+    || assignAs<SimpleDiscreteDistribution>(c, out, v, pr, 1e-12, false);
+  if (!ok && dynamic_cast<const Rec<InvariantMixedDiscreteDistribution>*>(&c)) {
+    std::unique_ptr<DiscreteDistributionInterface> k(new Rec<ConstantDistribution>(-1, 1.));
+    ok = assignAs<InvariantMixedDiscreteDistribution>(c, out, std::move(k), 0.5, 0.);
+  }
+  if (!ok && dynamic_cast<const Rec<MixtureOfDiscreteDistributions>*>(&c)) {
+    std::vector<std::unique_ptr<DiscreteDistributionInterface>> comps;
+    comps.push_back(std::unique_ptr<DiscreteDistributionInterface>(new Rec<ConstantDistribution>(-1, 1.)));
+    std::vector<double> w{1.};
+    ok = assignAs<MixtureOfDiscreteDistributions>(c, out, comps, w);
+  }
+  if (!ok) throw Exception("class");
+  g_alt = std::move(out);
 }
 
 // after a constructor: oracle values of the discretisation just performed by the base constructor
@@ -158,7 +275,7 @@ static std::string vec(const std::vector<double>& v) { std::string s; for (size_
 
 static std::string opInner(const Toks& t);
 static std::string op(const Toks& t) {
-  if (sigsetjmp(g_jmp, 1)) { g_cur.release(); g_rec = true; return "hang"; }
+  if (sigsetjmp(g_jmp, 1)) { g_cur.release(); g_alt.release(); g_rec = true; return "hang"; }
   arm(OP_LIMIT);
   std::string r = opInner(t);
   arm(0);
@@ -200,12 +317,17 @@ static std::string opInner(const Toks& t) {
       else throw Exception("family");
       g_log.clear();
       g_cur = std::move(d);
-      g_continuous = (fam == "gamma" || fam == "beta" || fam == "gauss" || fam == "exp" || fam == "texp" || fam == "unif");
+      g_continuous = isContinuous(g_cur.get());
       if (fam != "invar" && fam != "mix") oracleAfterCtor(*g_cur);
     });
   }
   if (o == "push") { if (g_cur) g_stack.push_back(std::move(g_cur)); g_continuous = false; return "ok " + std::to_string(g_stack.size()); }
-  if (!g_cur) return "none";
+  if (o == "swap") return guarded([&] { std::swap(g_cur, g_alt); g_continuous = isContinuous(g_cur.get()); });
+  if (!g_cur) return "none" + altStr();
+  // a second object: the copy constructor / the assignment operator; the source stays current
+  if (o == "fork") return guarded([&] { bool r = g_rec; g_rec = false; std::unique_ptr<DiscreteDistributionInterface> c(g_cur->clone()); g_rec = r; g_alt = std::move(c); });
+  if (o == "selfassign") return guarded([&] { bool r = g_rec; g_rec = false; try { selfAssign(); } catch (...) { g_rec = r; throw; } g_rec = r; });
+  if (o == "forkassign") return guarded([&] { bool r = g_rec; g_rec = false; try { forkAssign(); } catch (...) { g_rec = r; throw; } g_rec = r; });
   if (o == "setp") return guarded([&] { g_cur->setParameterValue(hexToStr(t[1]), D(t[2])); });
   if (o == "setn") return guarded([&] { g_cur->setNumberOfCategories(toU(t[1])); });
   if (o == "median") return guarded([&] { g_cur->setMedian(t[1] == "1"); });
@@ -268,5 +390,5 @@ static std::string opInner(const Toks& t) {
 
 int main() {
   std::signal(SIGVTALRM, onAlarm);
-  return runLoop([](const Toks&) { g_cur.reset(); g_stack.clear(); g_log.clear(); g_nextSlot = 0; g_rec = true; g_continuous = false; }, op);
+  return runLoop([](const Toks&) { g_cur.reset(); g_alt.reset(); g_stack.clear(); g_log.clear(); g_nextSlot = 0; g_rec = true; g_continuous = false; }, op);
 }
